@@ -284,7 +284,9 @@ func c19Generate(g *srcGen) string {
 		case "style":
 			return []string{"<style>\n  a > b { color: red; }\n</style>", "<style>ul > li { margin: 0 }</style>", "<style>a{b:c}</style>"}[g.r.Intn(3)]
 		case "pre":
-			return "<pre" + g.c19Attrs() + ">" + []string{"", "\n", "\n\n", "  "}[g.r.Intn(4)] + "  keep   this\n   {{ a < b }} &lt;tag&gt; <b>bold</b>\n</pre>"
+			// elements NESTED in the <pre> hold whitespace that matters just as much (a highlighted code block: <pre><code>…, <span>s)
+			nested := []string{"<b>bold</b>", "<code>func main() {\n    if a &lt; b {\n        x(\"a   b\")\n    }\n}\n</code>", "<span class=\"k\">name      value</span>\n<span>id          42</span>", "<code>  {{ codeExample }}\n\n</code>", "<em> lead and trail </em>"}[g.r.Intn(5)]
+			return "<pre" + g.c19Attrs() + ">" + []string{"", "\n", "\n\n", "  "}[g.r.Intn(4)] + "  keep   this\n   {{ a < b }} &lt;tag&gt; " + nested + "\n</pre>"
 		case "table":
 			return "<table><tbody><tr><td" + g.c19Attrs() + ">" + texts[g.r.Intn(len(texts))] + "</td><td>2</td></tr></tbody></table>"
 		case "ul":
